@@ -93,7 +93,13 @@ BUILTINS['next'] = next
 BUILTINS['object'] = lambda: Obj(sentinel=True)
 BUILTINS['iter'] = iter
 BUILTINS['enumerate'] = lambda x, start=0: list(enumerate(x, start))
-BUILTINS['str'] = str
+def _str(*a, **k):
+    if a and isinstance(a[0], Native) and type(a[0]).__str__ is object.__str__:
+        raise Unsupported('str() of a model object')
+    return str(*a, **k)
+
+
+BUILTINS['str'] = _str
 BUILTINS['tuple'] = tuple
 BUILTINS['set'] = set
 BUILTINS['dict'] = dict
@@ -106,7 +112,7 @@ TYPE_METHODS = {('dict', 'fromkeys'): dict.fromkeys}
 import functools as _functools
 import operator as _operator
 # pure standard library functions that may appear by their dotted name (as a value or called)
-DOTTED = {'operator.or_': _operator.or_, 'operator.and_': _operator.and_, 'operator.xor': _operator.xor, 'operator.add': _operator.add,
+DOTTED = {'six.string_types': (str,), 'six.integer_types': (int,), 'six.binary_type': bytes, 'six.text_type': str, 'operator.or_': _operator.or_, 'operator.and_': _operator.and_, 'operator.xor': _operator.xor, 'operator.add': _operator.add,
           'operator.mul': _operator.mul, 'operator.sub': _operator.sub, 'operator.lshift': _operator.lshift, 'operator.rshift': _operator.rshift}
 
 
@@ -138,6 +144,11 @@ DOTTED_CALLS = {'functools.reduce': _reduce, 'six.iterbytes': lambda b: list(byt
                 'six.ensure_str': _ensure_text, 'six.b': lambda s: s.encode('latin-1'), 'six.u': lambda s: s,
                 'six.text_type': str, 'six.binary_type': bytes}
 import collections as _collections
+import struct as _struct
+DOTTED_CALLS['struct.calcsize'] = _struct.calcsize        # sizes of the standard formats are constants of the language
+DOTTED_CALLS['struct.unpack'] = lambda fmt, data: _struct.unpack(fmt, bytes(data))
+DOTTED_CALLS['struct.pack'] = _struct.pack
+DOTTED_CALLS['struct.unpack_from'] = lambda fmt, data, offset=0: _struct.unpack_from(fmt, bytes(data), offset)
 import itertools as _itertools
 # pure iteration helpers of the standard library: evaluated eagerly over the (finite) model values
 DOTTED_CALLS['itertools.chain'] = lambda *its: [x for it in its for x in list(it)]
@@ -230,7 +241,13 @@ class Evaluator:
             if n.id in TYPE_VALUES:
                 return TYPE_VALUES[n.id]         # a builtin type used as a value (converter argument, isinstance operand)
             if self.name_hook is not None:
-                return self.name_hook(n.id)
+                try:
+                    return self.name_hook(n.id)
+                except Unsupported:
+                    if n.id not in BUILTINS:
+                        raise
+            if n.id in BUILTINS:
+                return BUILTINS[n.id]           # a builtin function used as a value (``(str, len)`` in a dispatch table)
             if n.id in ('True', 'False', 'None'):
                 return {'True': True, 'False': False, 'None': None}[n.id]
             raise Unsupported('free name %s' % n.id)
@@ -306,6 +323,7 @@ class Evaluator:
                 sub = Evaluator(dict(outer.env, **dict(zip(params, args))), outer.hook, outer.name_hook)
                 sub.owner = outer.owner
                 return sub.ev(n.body)
+            fn._miniexec = True
             return fn
         if isinstance(n, ast.ListComp):
             return self.comprehension(n, 0, [])
@@ -382,6 +400,34 @@ class Evaluator:
             if names is not None:
                 ts = n.args[1].elts if isinstance(n.args[1], ast.Tuple) else [n.args[1]]
                 return any(ast.unparse(t).split('.')[-1] in names for t in ts)
+            kinds = getattr(first, '_isa', None)
+            if kinds is not None or not isinstance(first, Native):
+                # a model object that states the repository / library classes it is an instance of (``_isa``), or a plain python
+                # value, tested against classes named in the evaluated code (resolved to ClassRef) and builtin types
+                def flat(t):
+                    if isinstance(t, (tuple, list)):
+                        for x in t:
+                            for y in flat(x):
+                                yield y
+                    else:
+                        yield t
+                try:
+                    second = self.ev(n.args[1])
+                except Unsupported:
+                    second = None
+                if second is not None:
+                    verdicts = []
+                    for t in flat(second):
+                        if isinstance(t, type):
+                            verdicts.append(isinstance(first, t) and kinds is None)
+                        elif isinstance(t, ClassRef):
+                            mro_names = {getattr(k, 'name', None) for k in getattr(t.info, 'mro', [])} | {getattr(t.info, 'name', None)}
+                            verdicts.append(kinds is not None and getattr(t.info, 'name', None) in kinds)
+                        else:
+                            verdicts = None
+                            break
+                    if verdicts is not None:
+                        return any(verdicts)
         args = [self.ev(a) for a in n.args]
         kwargs = {k.arg: self.ev(k.value) for k in n.keywords}
         d = ast.unparse(n.func)
@@ -404,6 +450,13 @@ class Evaluator:
                 raise Unsupported('%s: %s' % (ast.unparse(n), e))
         if isinstance(n.func, ast.Name) and n.func.id in self.env and isinstance(self.env[n.func.id], Native) and callable(self.env[n.func.id]):
             return self.env[n.func.id](*args, **kwargs)
+        if isinstance(n.func, ast.Name) and n.func.id in self.env and callable(self.env[n.func.id]) and \
+                (getattr(self.env[n.func.id], '_miniexec', False) or any(self.env[n.func.id] is b for b in BUILTINS.values())):
+            # a function value of the evaluated code itself: a lambda it built, or a builtin it stored in a table
+            try:
+                return self.env[n.func.id](*args, **kwargs)
+            except TypeError as e:
+                raise Unsupported('%s: %s' % (ast.unparse(n)[:60], e))
         if isinstance(n.func, ast.Name) and n.func.id in self.env and any(self.env[n.func.id] is t for t in (int, str, bytes, bytearray, bool, list, tuple)):
             # a builtin type handed in as an argument (converter parameters): ValueError / TypeError are part of the behaviour
             try:
@@ -563,7 +616,7 @@ class Evaluator:
             else:
                 raise Unsupported('statement %s' % type(st).__name__)
 
-    NATIVE_ERRORS = (KeyError, IndexError, ValueError, AttributeError, TypeError, ZeroDivisionError, StopIteration, NativeError)
+    NATIVE_ERRORS = (KeyError, IndexError, ValueError, AttributeError, TypeError, ZeroDivisionError, StopIteration, OverflowError, _struct.error, NativeError)
 
     def run_try(self, st):
         """try / except / else / finally: handlers are matched by exception class *name* (a ``raise X(...)`` executed by
